@@ -722,6 +722,10 @@ class Executor:
     def for_range(self, s, st, k):
         n, spec = self.loop_spec(s)
         if spec is None:
+            vals = self.const_range(s.iter.args)
+            if vals is not None and isinstance(s.target, ast.Name) and not s.orelse:
+                # constant bounds, no invariant given: the loop is its finite unrolling (complete, not a bound)
+                return self.for_unrolled(s, st, k, vals)
             raise OutOfSubset('loop %d of %s has no invariant in the sidecar contract' % (n, self.qualname), s)
         a = s.iter.args
         if not isinstance(s.target, ast.Name) or len(a) not in (1, 3):
@@ -744,6 +748,35 @@ class Executor:
                 start = args[0].e
                 count = '(- %s %s)' % (args[1].e, start) if step == 1 else '(- %s %s)' % (start, args[1].e)
             self._for_range(s, n, spec, SV('Int', count), st1, k, start, step)
+
+    @staticmethod
+    def const_range(args):
+        vals = []
+        for a in args:
+            if isinstance(a, ast.Constant) and type(a.value) is int:
+                vals.append(a.value)
+            elif isinstance(a, ast.UnaryOp) and isinstance(a.op, ast.USub) and isinstance(a.operand, ast.Constant) \
+                    and type(a.operand.value) is int:
+                vals.append(-a.operand.value)
+            else:
+                return None
+        if not 1 <= len(vals) <= 3 or (len(vals) == 3 and vals[2] == 0):
+            return None
+        r = list(range(*vals))
+        return r if len(r) <= 16 else None
+
+    def for_unrolled(self, s, st, k, values):
+        var = s.target.id
+
+        def step(i, st2):
+            if i == len(values):
+                return k.normal(st2)
+            st3 = st2.tag('unroll%d' % i)
+            v = values[i]
+            st3.env[var] = SV('Int', str(v) if v >= 0 else '(- %d)' % -v)
+            self.exec_block(s.body, st3, k.with_(normal=lambda s4: step(i + 1, s4), cont=lambda s4: step(i + 1, s4),
+                                                 brk=lambda s4: k.normal(s4)))
+        step(0, st)
 
     def _for_range(self, s, n, spec, bound, st, k, start='0', step=1, elem=None):
         """`{k}` in invariants = number of completed iterations, `{n}` = total number of iterations (if >= 0)"""
@@ -1184,6 +1217,13 @@ class Executor:
                     AND('((_ is TConst) %s)' % a.e, '((_ is TConst) %s)' % b.e))
             self.oblige(st.fork().tag('eq'), 'safety.identity_comparison_is_exact', ok, 'safety')
             return EQ(a.e, b.e)
+        if a.sort == 'Tuple' and b.sort == 'Tuple' and not ident:
+            # tuples compare element-wise (elements of the scalar sorts only)
+            ia, ib = a.meta['items'], b.meta['items']
+            if len(ia) != len(ib):
+                return 'false'
+            if all(x.sort == y.sort and x.sort in ('Int', 'Bool', 'Str') for x, y in zip(ia, ib)):
+                return AND(*[EQ(x.e, y.e) for x, y in zip(ia, ib)]) if ia else 'true'
         if a.sort == 'PyList' and b.sort == 'PyList' and not ident:
             if not a.meta['items'] or not b.meta['items']:
                 return 'true' if len(a.meta['items']) == len(b.meta['items']) else 'false'
@@ -1418,6 +1458,9 @@ class Executor:
         return outs
 
     def apply_name(self, e, name, args, st):
+        if name in ('min', 'max') and len(args) == 2 and args[0].sort == args[1].sort == 'Int':
+            a, b = args[0].e, args[1].e
+            return [(st, SV('Int', ITE('(<= %s %s)' % ((a, b) if name == 'min' else (b, a)), a, b)))]
         if name == 'len' and len(args) == 1:
             a = args[0]
             if a.sort == 'TList':
@@ -1513,11 +1556,26 @@ class Executor:
                 for a in reversed(args[n:]):
                     out = '(cons %s %s)' % (a.e, out)
                 args = args[:n] + [SV('TList', out)]
-        if len(args) < len(params) and all(ps.startswith('Opt:') for _, ps in params[len(args):]):
-            defaults = [ps.split(':', 2) for _, ps in params[len(args):]]
-            for d in defaults:
+        kws = {k.arg: k.value for k in getattr(e, 'keywords', [])} if isinstance(e, ast.Call) else {}
+        if None in kws or any(k not in [pn for pn, _ in params[len(args):]] for k in kws):
+            raise OutOfSubset('keyword argument not a remaining parameter of %s' % c.name, e)
+        if len(args) < len(params) and all(ps.startswith('Opt:') or pn in kws for pn, ps in params[len(args):]):
+            for pn, ps in params[len(args):]:
+                if pn in kws:
+                    # keyword argument: evaluated at the call (constants and names only, so no fork and no effect)
+                    if not isinstance(kws[pn], (ast.Constant, ast.Name)) and not (
+                            isinstance(kws[pn], ast.UnaryOp) and isinstance(kws[pn].operand, ast.Constant)):
+                        raise OutOfSubset('keyword argument expression', e)
+                    kv = self.eval(kws[pn], st)
+                    if len(kv) != 1 or isinstance(kv[0][1], Exc):
+                        raise OutOfSubset('keyword argument expression', e)
+                    args = args + [kv[0][1]]
+                    continue
+                d = ps.split(':', 2)
                 dv = d[2] if len(d) > 2 else 'None'
                 args = args + [NONE if dv == 'None' else (TRUE if dv == 'True' else FALSE if dv == 'False' else SV('Int', dv))]
+        elif kws:
+            raise OutOfSubset('keyword arguments of %s' % c.name, e)
         if len(args) != len(params):
             raise OutOfSubset('arity of call to %s' % c.name, e)
         ex = {}
